@@ -27,7 +27,9 @@ PT == [h |-> 1, he |-> 2, li |-> 3, be |-> 4, b |-> 5, c |-> 6, n |-> 7, o |-> 8
        pa |-> 91, u |-> 92, np |-> 93, pu |-> 94, am |-> 95, cm |-> 96, bk |-> 97, cf |-> 98, es |-> 99, fm |-> 100]
 
 VARIABLE o          \* the object under consideration
-Init == o \in 1..N
+NL == Len(Reg.lines)
+Init == o \in 1..(N + NL)          \* objects first, then one state per recorded Line
+IsObj == o <= N
 Next == UNCHANGED o
 Spec == Init /\ [][Next]_o
 
@@ -35,28 +37,28 @@ IsEl(i)  == Obj[i].kind = "element"
 IsIso(i) == Obj[i].kind = "isotope"
 
 \* every recorded lookup that spells an identifier of object o returned o
-LookupReturnsSelf == \A k \in 1..Len(Reg.lookups) : Reg.lookups[k].target = o => Reg.lookups[k].result = o
+LookupReturnsSelf == IsObj => \A k \in 1..Len(Reg.lookups) : Reg.lookups[k].target = o => Reg.lookups[k].result = o
 \* and object o was actually looked up by each kind of identifier
-LookupCovered == LET kinds == {Reg.lookups[k].via : k \in {j \in 1..Len(Reg.lookups) : Reg.lookups[j].target = o}}
+LookupCovered == IsObj => LET kinds == {Reg.lookups[k].via : k \in {j \in 1..Len(Reg.lookups) : Reg.lookups[j].target = o}}
                  IN IF IsEl(o) THEN {"name", "symbol", "z"} \subseteq kinds
                     ELSE {"name", "symbol", "elsymbol+a", "elname+a", "element,number"} \subseteq kinds
 
-UniqueName   == \A p \in 1..N : p # o => Obj[p].lname # Obj[o].lname
-UniqueSymbol == \A p \in 1..N : (p # o /\ Obj[p].kind = Obj[o].kind) => Obj[p].lsymbol # Obj[o].lsymbol
-ZMatchesTable == IsEl(o) => (Obj[o].lsymbol \in DOMAIN PT /\ PT[Obj[o].lsymbol] = Obj[o].z)
-IsotopeConsistent == IsIso(o) => /\ Obj[o].el \in 1..N /\ IsEl(Obj[o].el)
+UniqueName   == IsObj => \A p \in 1..N : p # o => Obj[p].lname # Obj[o].lname
+UniqueSymbol == IsObj => \A p \in 1..N : (p # o /\ Obj[p].kind = Obj[o].kind) => Obj[p].lsymbol # Obj[o].lsymbol
+ZMatchesTable == IsObj => (IsEl(o) => (Obj[o].lsymbol \in DOMAIN PT /\ PT[Obj[o].lsymbol] = Obj[o].z))
+IsotopeConsistent == IsObj => (IsIso(o) => /\ Obj[o].el \in 1..N /\ IsEl(Obj[o].el)
                                  /\ Obj[o].z = Obj[Obj[o].el].z
                                  /\ Obj[o].a >= Obj[o].z
                                  /\ Obj[o].w - Obj[o].a * 1000000 < 100000
-                                 /\ Obj[o].a * 1000000 - Obj[o].w < 100000
+                                 /\ Obj[o].a * 1000000 - Obj[o].w < 100000)
 \* equality and hashing: o equals exactly itself, is unequal (!=) to everything else, equal objects hash equally
-EqIsIdentity == Rng(Reg.eq[o]) = {o}
-NeIsComplement == Rng(Reg.not_ne[o]) = {o}
-EqualHashEqual == \A p \in Rng(Reg.eq[o]) : Reg.hash[p] = Reg.hash[o]
-UsableAsDictKey == Reg.dictkey[o] = o
+EqIsIdentity == IsObj => Rng(Reg.eq[o]) = {o}
+NeIsComplement == IsObj => Rng(Reg.not_ne[o]) = {o}
+EqualHashEqual == IsObj => \A p \in Rng(Reg.eq[o]) : Reg.hash[p] = Reg.hash[o]
+UsableAsDictKey == IsObj => Reg.dictkey[o] = o
 
 \* spectral lines built twice from the same (element, charge, transition): equal exactly to their twin, same hash
-LinesOK == \A i \in 1..Len(Reg.lines) :
+LinesOK == ~IsObj => LET i == o - N IN
               /\ Rng(Reg.lines[i].eq) = {i, Reg.lines[i].twin}
               /\ Rng(Reg.lines[i].not_ne) = {i, Reg.lines[i].twin}
               /\ Reg.lines[i].hash = Reg.lines[Reg.lines[i].twin].hash
